@@ -13,11 +13,11 @@ RULE = ("explicit-state BFS over histories of definitions (0-3 parameters in ide
         "signature list x configuration")
 
 TRIGGERS = [":keyword", ":param **kwargs:", "KW!"]
-STRIPS = ["", "^_[a-zA-Z]*_", "^_", "x", r"\W+", "^[^_]*_"]   # the last two can match across a separator if parameters were joined
+STRIPS = ["", "^_[a-zA-Z]*_", "^_", "x", r"\W+", "^[^_]*_", "^_+|_+$", "^_pfx_|_(arg|in)$"]   # the last two: an anchored and an unanchored alternative   # the last two can match across a separator if parameters were joined
 DOCS = [None, ["Plain text only."], ["Takes :keyword foo: a thing."], ["Doc.", ":param **kwargs: more"],
         ["Shout KW! here"], ["near miss :Keyword and kw! and :param *kwargs:"],
         ["The :keywords: follow, KW!x too, and :param **kwargs:x"]]     # the trigger directly followed by a word character
-PARAMS = [[], ["_pfx_name"], ['"q  p\tt"', "${ref}", "[[br x]]"], ["x_arg", "_x", "plain"]]   # two spaces and a tab inside quotes
+PARAMS = [[], ["_pfx_name"], ['"q  p\tt"', "${ref}", "[[br x]]"], ["x_arg", "_x", "_both_"]]   # two spaces and a tab inside quotes
 
 
 def enabled(events, maxnest):
@@ -115,6 +115,43 @@ def sweep_case(h, case):
     return {"viol": msgs, "obs": dg, "nt": dg if nt else None, "n": n, "cls": msgs[0].split(":")[0] if msgs else None}
 
 
+CLI_TRIGGERS = [":keyword ", " KW!", "kw arg", "\tKW", ":keyword"]
+CLI_DOCS = [":keywords: plural", "Shout KW!", "takes :keyword x: one", "a kw arg here", "ends with :keyword", "a kwarg", "\tKW"]
+
+
+def check_cli(job):
+    """the trigger string as the settings file gives it (leading/trailing blanks included) through the real command line"""
+    from .. import fsbox, rstobs
+    import yaml
+    trigger = job
+    box = fsbox.Box("c03")
+    msgs = []
+    try:
+        text = ""
+        for n, d in enumerate(CLI_DOCS):
+            text += f"#[[[\n# {d}\n#]]\nfunction(cli_fn_{n} a)\nendfunction()\n#[[[\n# {d}\n#]]\nmacro(cli_mac_{n} b)\nendmacro()\n"
+        box.build({"in/m.cmake": text})
+        with open(box.path("work", "s.yaml"), "w") as f:
+            yaml.safe_dump({"input": {"kwargs_doc_trigger_string": trigger}}, f)
+        r = box.run(["-s", "s.yaml", "-o", "out", "in"])
+        if r["status"] != 0:
+            msgs.append(f"error: run failed: {r['exc'] or r['stdout'][-200:]}")
+        else:
+            page = box.files("work/out")["m.rst"]
+            sigs = {b.arg.split("(")[0].strip(): b.arg for b in rstobs.Page(page).entries()}
+            for n, d in enumerate(CLI_DOCS):
+                want = trigger in d
+                for nm in (f"cli_fn_{n}", f"cli_mac_{n}"):
+                    got = "**kwargs" in sigs.get(nm, "")
+                    if nm not in sigs or got != want:
+                        msgs.append(f"signature: trigger {trigger!r} (settings file), doc {d!r}: {nm} is shown as {sigs.get(nm)!r}, "
+                                    f"'**kwargs' expected: {want}")
+    finally:
+        box.cleanup()
+    return {"viol": msgs[:4], "obs": common.digest([trigger, msgs]), "nt": common.digest(trigger), "n": 1,
+            "cls": "signature cli" if msgs else None, "case": {"cli_trigger": trigger}}
+
+
 def run(ctx):
     quick = ctx.tier == "quick"
     maxnest, depth, cfgdepth = (3, 5, 3) if quick else (4, 9, 4)
@@ -128,11 +165,14 @@ def run(ctx):
     hs = modsearch.all_histories(2, functools.partial(enabled, maxnest=maxnest))
     for oc in others:
         ctx.sweep(functools.partial(sweep_case, case=oc), hs, space=f"histories <=2 in {oc} case, four configurations")
+    ctx.sweep(check_cli, CLI_TRIGGERS, space="trigger strings with blanks through the settings file and the command line", selftest=1)
     ctx.assumptions += ["only signature/arity/kind messages are judged here (doc text is C01's, classes C09's)"]
     return RULE
 
 
 def replay(case):
+    if isinstance(case, dict) and "cli_trigger" in case:
+        return check_cli(case["cli_trigger"])["viol"]
     events = case if isinstance(case, list) else case["events"]
     for cs in ("lower", "upper", "mixed"):      # the search used a seed-rotated command-name case
         msgs, _, _, _ = check(events, configs(True), cs)
